@@ -29,8 +29,12 @@ def session(seed):
         eps = ""
     pool = []
     prefixes = rng.sample(PREFIXES, 4)
+    mixed = rng.random() < 0.3           # operands with DIFFERENT epsilon symbols
     for i, pf in enumerate(prefixes):
-        N = U.random_nfa(rng, rng.randint(1, 3), S if rng.random() < 0.8 else S[:1], eps=eps, prefix=pf,
+        e_i = eps
+        if mixed and i % 2 == 1:
+            e_i = next(x for x in gen.EPSS if x != eps and x not in S)
+        N = U.random_nfa(rng, rng.randint(1, 3), S if rng.random() < 0.8 else S[:1], eps=e_i, prefix=pf,
                          total=rng.random() < 0.3)
         pool.append(N)
     own = IdentifierGenerator(rng.choice([0, 0, 5, 9, 9, 10])) if rng.random() < 0.4 else None
@@ -47,7 +51,7 @@ def session(seed):
             B = None
         else:
             cand = [(X, Y) for X in pool for Y in pool if X is not Y and X.Q.isdisjoint(Y.Q)
-                    and X.epsilon == Y.epsilon]
+                    and X.epsilon not in Y.Sigma and Y.epsilon not in X.Sigma]
             if not cand:
                 continue
             A, B = rng.choice(cand)
@@ -127,7 +131,7 @@ def check(tier, seed):
         res.notes["spec_behaviours_replayed_into_impl"] = info
 
     return base.standard_check(PID, tier, seed, ts, MODELS[tier], RULE, nontrivial, matchers=MATCHERS, extra=extra,
-                               assumptions=["operands of one call share their epsilon symbol", "<= 3 states per base "
+                               assumptions=["an operand's epsilon symbol is not an input symbol of the other operand", "<= 3 states per base "
                                             "operand, results nest up to depth 5"])
 
 
